@@ -1,6 +1,7 @@
 import Rscp.Props.C11
 import Rscp.Tie.Log
 import Rscp.Tie.Client
+import Rscp.Tie.Cli
 
 #print axioms Rscp.Props.C11.render_masks
 #print axioms Rscp.Props.C11.render_secret_independent
@@ -31,3 +32,9 @@ import Rscp.Tie.Client
 #print axioms Rscp.Tie.Client.shape_rscp_readRequestSliceReader
 #print axioms Rscp.Tie.Client.leaf_authenticate_hideLog_src
 #print axioms Rscp.Tie.Client.leaf_authenticate_hideLog_args
+#print axioms Rscp.Tie.Cli.shape_e3dc_main
+#print axioms Rscp.Tie.Cli.shape_e3dc_run
+#print axioms Rscp.Tie.Cli.shape_e3dc_parseFlags
+#print axioms Rscp.Tie.Cli.shape_e3dc_checkFlags
+#print axioms Rscp.Tie.Cli.shape_e3dc_printUsage
+#print axioms Rscp.Tie.Cli.shape_e3dc_printVersion
